@@ -266,23 +266,65 @@ func (*BaseNode).ReplaceChild
   ensures [parents] forall w addr {par(w)} :: (w != insertee && w != v1) ==> par(w) == old(par(w))
   modifies all(BaseNode.childCount), all(BaseNode.firstChild), all(BaseNode.lastChild), all(BaseNode.parent), all(BaseNode.next), all(BaseNode.prev)
 
-// SortChildren (partial): the comparator is only called, never given a chance to change the tree; afterwards
-// LastChild is the end of the chain that starts at FirstChild (its next link is nil), the list is empty iff it
-// was empty, and the count is untouched.  Not proved: that the chain is a sorted permutation and WF as a whole.
+// SortChildren: an insertion sort on the linked list.  Ghost state built while it runs: the sorted chain as an
+// indexed sequence sk(0..m-1) with inverse sp; m = number of children already moved = position of `current` in the
+// original list.  At the end the chain IS the new child list: the view is updated to it and WF is re-established,
+// so the children are a permutation of the old ones (same parent, same count, each exactly once), every adjacent pair
+// (a, b) satisfies comparator(a, b) <= 0 or comparator(b, a) >= 0 (= ascending for an antisymmetric comparator; which of
+// several equal nodes comes first is deliberately left open), and
+// nothing outside this child list changes.  The comparator is only called (never given a chance to change the tree)
+// and its result is taken to be a function of its two arguments (detfunc: an assumption about comparators).
+ghost var sk(i int) addr              // i-th node of the sorted chain
+ghost var sp(v addr) int              // position of v in the sorted chain
+macro srtS()  = nodeOf(addr(n))
+macro srtL()  = klen(srtS())
+macro srtM()  = (current == nil ? srtL() : kidx(current))
+macro srtLe(a, b) = (funres(comparator, a, b) <= 0 || funres(comparator, b, a) >= 0)
+macro srtChain(m) = forall i int {sk(i)} :: (0 <= i && i < m) ==> (sk(i) != nil && par(sk(i)) == srtS() && 0 <= kidx(sk(i)) && kidx(sk(i)) < m && sp(sk(i)) == i &&
+     nxt(sk(i)) == (i + 1 < m ? sk(i + 1) : nil) && prv(sk(i)) == (i > 0 ? sk(i - 1) : nil))
+macro srtInv(m)   = forall j int {kid(srtS(), j)} :: (0 <= j && j < m) ==> (0 <= sp(kid(srtS(), j)) && sp(kid(srtS(), j)) < m && sk(sp(kid(srtS(), j))) == kid(srtS(), j))
+macro srtRest(m)  = forall j int {kid(srtS(), j)} :: (m <= j && j < srtL()) ==> nxt(kid(srtS(), j)) == old(nxt(kid(srtS(), j)))
+macro srtFrame()  = forall w addr {nxt(w)} {prv(w)} :: old(par(w)) != srtS() ==> (nxt(w) == old(nxt(w)) && prv(w) == old(prv(w)))
+macro srtOrd(m)   = forall i int {sk(i)} :: (0 <= i && i + 1 < m) ==> srtLe(sk(i), sk(i + 1))
 func (*BaseNode).SortChildren
-  purefunc comparator
-  requires WF()
+  uses nodeModel
+  detfunc comparator
+  requires WF() && srtS() != nil && base(srtS()) == addr(n)
+  // head insertion: everything moves down by one
+  callupdate ast.Node.SetNextSibling#1: sk(i) = (i == 0 ? current : sk(i - 1))
+  callupdate ast.Node.SetNextSibling#1: sp(v) = (v == current ? 0 : sp(v) + 1)
+  // insertion right after c
+  callupdate ast.Node.SetNextSibling#2: sk(i) = (i <= sp(c) ? sk(i) : (i == sp(c) + 1 ? current : sk(i - 1)))
+  callupdate ast.Node.SetNextSibling#2: sp(v) = (v == current ? sp(c) + 1 : (sp(v) > sp(c) ? sp(v) + 1 : sp(v)))
+  postupdates kid(p, i) = (p == srtS() ? sk(i) : kid(p, i))
+  postupdates kidx(v) = ((v != nil && par(v) == srtS()) ? sp(v) : kidx(v))
+  ensures [W0] W0()
+  ensures [W1] W1()
+  ensures [W2] W2()
+  ensures [W3] W3()
+  ensures [W4] W4()
+  ensures [W5] W5()
+  ensures [W6] W6()
+  ensures [W7] W7()
+  ensures [sorted] forall i int {kid(srtS(), i)} :: (0 <= i && i + 1 < srtL()) ==> srtLe(kid(srtS(), i), kid(srtS(), i + 1))
+  ensures [others] forall w addr {nxt(w)} {prv(w)} :: old(par(w)) != srtS() ==> (nxt(w) == old(nxt(w)) && prv(w) == old(prv(w)))
   ensures [tail] n.firstChild != nil ==> (n.lastChild != nil && nxt(n.lastChild) == nil)
   ensures [empty] (n.firstChild == nil) <==> old(n.firstChild == nil)
-  ensures [emptyTail] n.firstChild == nil ==> n.lastChild == old(n.lastChild)
   ensures [count] n.childCount == old(n.childCount)
-  modifies n.firstChild, n.lastChild, all(BaseNode.next), all(BaseNode.prev)
-  loop 0 inv (sorted == nil ==> current == old(n.firstChild)) && (old(n.firstChild) == nil ==> (current == nil && sorted == nil))
-  loop 0 inv n.lastChild == old(n.lastChild) && n.firstChild == old(n.firstChild) && n.childCount == old(n.childCount)
-  loop 1 inv c != nil && sorted != nil && current != nil
-  loop 1 inv n.lastChild == old(n.lastChild) && n.firstChild == old(n.firstChild) && n.childCount == old(n.childCount)
-  loop 2 inv n.firstChild == sorted && n.childCount == old(n.childCount) && (sorted == nil ==> (c == nil && n.lastChild == old(n.lastChild)))
-  loop 2 inv c == sorted || (n.lastChild != nil && nxt(n.lastChild) == c)
+  modifies n.firstChild, n.lastChild, all(BaseNode.next), all(BaseNode.prev), sk, sp
+  loop 0 inv current == nil || (par(current) == srtS() && 0 <= kidx(current) && kidx(current) < srtL() && kid(srtS(), kidx(current)) == current)
+  loop 0 inv sorted == (srtM() > 0 ? sk(0) : nil)
+  loop 0 inv [chain] srtChain(srtM())
+  loop 0 inv [inverse] srtInv(srtM())
+  loop 0 inv [rest] srtRest(srtM())
+  loop 0 inv [frame] srtFrame()
+  loop 0 inv [ordered] srtOrd(srtM())
+  loop 0 dec (current == nil ? 0 : srtL() - kidx(current))
+  loop 1 inv c != nil && 0 <= sp(c) && sp(c) < srtM() && sk(sp(c)) == c && funres(comparator, c, current) <= 0
+  loop 1 dec srtM() - sp(c)
+  loop 2 inv c == nil ? (srtL() == 0 ? n.lastChild == old(n.lastChild) : n.lastChild == sk(srtL() - 1)) : (0 <= sp(c) && sp(c) < srtL() && sk(sp(c)) == c && (sp(c) > 0 ==> n.lastChild == sk(sp(c) - 1)))
+  loop 2 inv [lastKept] forall p addr {lst(p)} :: p != srtS() ==> lst(p) == old(lst(p))
+  loop 2 dec (c == nil ? 0 : srtL() - sp(c))
 
 // ---- Walk: ghost log of the walker calls (append-only; index = number of calls made before) ----
 ghost var wlen() int                  // number of walker calls made so far
